@@ -82,7 +82,7 @@ theorem scan_window_independent (L w1 w2 : Bytes) (fs : FS) (sk1 sk2 la : Nat)
       have := h1.length_le; simp; omega)
     have hsame : f1 = f2 ∧ q1 = q2 := by
       unfold payloadRes at hq1 hq2
-      rcases hpp : pesPacketFrame 3 true cfg.corSkipsEmpty { fs with frame := { fs.frame with nDu := 0 } } (L.take la)
+      rcases hpp : pesPacketFrame cfg 3 true cfg.corSkipsEmpty { fs with frame := { fs.frame with nDu := 0 } } (L.take la)
         with ⟨a, b, r, c⟩
       rw [hpp] at hq1 hq2
       cases r <;> simp_all
@@ -157,7 +157,7 @@ theorem feed_consumes_all (s : St) (buf : Bytes) (h : Inv cfg s) :
 /-- `demux_pes_packet_frame`: the `for (;;)` runs at most twice, extraction never reads outside
 the packet, and the result is 0 or a data unit error (callback installed). -/
 theorem packet_frame_two_rounds (se : Bool) (fs : FS) (d : Bytes) (hd : 2 ≤ d.length) :
-    (pesPacketFrame 3 true se fs d).2.2.1 = .done ∨ (pesPacketFrame 3 true se fs d).2.2.1 = .err :=
+    (pesPacketFrame cfg 3 true se fs d).2.2.1 = .done ∨ (pesPacketFrame cfg 3 true se fs d).2.2.1 = .err :=
   pesPacketFrame_ok se fs d hd
 
 /-! ## The two defects of the unrepaired tree (fixed in /repo by 776a0f0 and 7c6e61c)
@@ -182,13 +182,14 @@ example : (pesFeed SrcCfg.repaired St.init livelockPacket).err = none ∧
     (pesFeed SrcCfg.repaired St.init livelockPacket).frames.length = 1 := by decide +kernel
 
 /-- **resync was false before 7c6e61c (F56).** While `demux_pes_packet` tests `err < 0`
-(`cfg.pesDiscards = false`), a reachable PES context whose line buffer is full and which is not at
+(`cfg.pesDiscards = false`) and `line_address` tests for the overflow first (`cfg.lateOverflow = false`,
+the shape of that tree), a reachable PES context whose line buffer is full and which is not at
 a frame start (`Deaf`) is absorbing: whatever is fed afterwards, in whatever pieces - intact
 packets included - no frame is delivered ever again. -/
-theorem pes_lockup_unrepaired (hflag : cfg.pesDiscards = false)
+theorem pes_lockup_unrepaired (hlo : cfg.lateOverflow = false) (hflag : cfg.pesDiscards = false)
     (s : St) (h : Inv cfg s) (hd : Deaf s.fs) (chunks : List Bytes) : (pesFeeds cfg s chunks).frames = [] := by
   have h1 := (pesFeeds_refines (cfg := cfg) chunks s h).2.2
-  have h2 := (arun_deaf (cfg := cfg) hflag (s.pending ++ chunks.flatten) s.core hd).1
+  have h2 := (arun_deaf (cfg := cfg) hlo hflag (s.pending ++ chunks.flatten) s.core hd).1
   rw [h1] at h2
   exact h2
 
@@ -257,13 +258,13 @@ theorem cor_always_progresses (hse : cfg.corSkipsEmpty = true) (maxLines : Nat) 
 /-! ## TS path (`demux_ts_packet`: sync search, 188-byte alignment, PID filter, continuity, PES reassembly) -/
 
 /-- the TS demux context reached from a new demultiplexer by a history of feed calls -/
-def tsAfter (pid : Nat) (hist : List Bytes) : TsSt := hist.foldl (fun s c => (tsFeed s c).st) (TsSt.init pid)
+def tsAfter (pid : Nat) (hist : List Bytes) : TsSt := hist.foldl (fun s c => (tsFeed cfg s c).st) (TsSt.init pid)
 
 /-- the TS invariant (ts_buffer fill + lookahead = 10 in sync / 197 searching, lookahead >= 1,
 consume <= ts_pes_todo, PES buffer bounds) holds after every history of feed calls -/
-theorem ts_inv_reachable (pid : Nat) (hist : List Bytes) : TsInv (tsAfter pid hist) := by
+theorem ts_inv_reachable (pid : Nat) (hist : List Bytes) : TsInv (tsAfter cfg pid hist) := by
   unfold tsAfter
-  have : ∀ (s : TsSt), TsInv s → TsInv (hist.foldl (fun s c => (tsFeed s c).st) s) := by
+  have : ∀ (s : TsSt), TsInv s → TsInv (hist.foldl (fun s c => (tsFeed cfg s c).st) s) := by
     induction hist with
     | nil => intro s h; exact h
     | cons c cs ih => intro s h; exact ih _ (tsFeed_safe s c h).2
@@ -274,27 +275,67 @@ access outside `ts_buffer` / `pes_buffer` / the caller's buffer, no failed `asse
 wrap-around of the lookahead / todo counters, and the loop terminates (every iteration consumes at
 least one byte or returns). -/
 theorem ts_garbage_safe (pid : Nat) (hist : List Bytes) (buf : Bytes) :
-    (tsFeed (tsAfter pid hist) buf).err = none :=
-  (tsFeed_safe _ buf (ts_inv_reachable pid hist)).1
+    (tsFeed cfg (tsAfter cfg pid hist) buf).err = none :=
+  (tsFeed_safe _ buf (ts_inv_reachable cfg pid hist)).1
 
 /-- **ts_feed_split_invariant (TS path, full).** For every reachable TS context, feeding `a` and then
 `b` delivers exactly the frames of feeding `a ++ b` and ends in the *same context*: every
 input-consuming block of the loop body (payload copy, skip, look-ahead copy into `ts_buffer`) is a
 resumable counter, and sync search / header evaluation / continuity never read input. -/
 theorem ts_feed_split_invariant (pid : Nat) (hist : List Bytes) (a b : Bytes) :
-    let s := tsAfter pid hist
-    (tsFeed s (a ++ b)).frames = (tsFeed s a).frames ++ (tsFeed (tsFeed s a).st b).frames ∧
-    (tsFeed s (a ++ b)).st = (tsFeed (tsFeed s a).st b).st := by
+    let s := tsAfter cfg pid hist
+    (tsFeed cfg s (a ++ b)).frames = (tsFeed cfg s a).frames ++ (tsFeed cfg (tsFeed cfg s a).st b).frames ∧
+    (tsFeed cfg s (a ++ b)).st = (tsFeed cfg (tsFeed cfg s a).st b).st := by
   intro s
-  have hi := ts_inv_reachable pid hist
-  have h1 := tsFeed_safe s a hi
-  have h2 := tsFeed_safe (tsFeed s a).st b h1.2
-  have h3 := tsFeed_safe s (a ++ b) hi
+  have hi := ts_inv_reachable cfg pid hist
+  have h1 := tsFeed_safe (cfg := cfg) s a hi
+  have h2 := tsFeed_safe (cfg := cfg) (tsFeed cfg s a).st b h1.2
+  have h3 := tsFeed_safe (cfg := cfg) s (a ++ b) hi
   exact tsFeed_split s a b h1.1 h2.1 h3.1
 
-example : (tsFeed (TsSt.init 256) (List.replicate 150 0x47 ++ List.replicate 250 0x47)).st
-    = (tsFeed (tsFeed (TsSt.init 256) (List.replicate 150 0x47)).st (List.replicate 250 0x47)).st :=
-  (ts_feed_split_invariant 256 [] (List.replicate 150 0x47) (List.replicate 250 0x47)).2
+example : (tsFeed cfg (TsSt.init 256) (List.replicate 150 0x47 ++ List.replicate 250 0x47)).st
+    = (tsFeed cfg (tsFeed cfg (TsSt.init 256) (List.replicate 150 0x47)).st (List.replicate 250 0x47)).st :=
+  (ts_feed_split_invariant cfg 256 [] (List.replicate 150 0x47) (List.replicate 250 0x47)).2
+
+/-- successive `vbi_dvb_demux_feed` calls on a TS demultiplexer: final context and all frames delivered -/
+def tsFeeds : TsSt → List Bytes → TsSt × List FrameOut
+  | s, [] => (s, [])
+  | s, c :: cs => ((tsFeeds (tsFeed cfg s c).st cs).1, (tsFeed cfg s c).frames ++ (tsFeeds (tsFeed cfg s c).st cs).2)
+
+/-- **ts_split_invariant (TS path, any partition).** For every reachable TS context, feeding a stream in
+ANY partition into successive buffers - of any sizes, down to single bytes, empty buffers included -
+delivers exactly the frames of feeding it whole and ends in the same context.  Holds in both shapes of
+the "PES packet complete" step (with and without fix dvb-demux-ts-first-packet). -/
+theorem ts_split_invariant (pid : Nat) (hist chunks : List Bytes) :
+    tsFeeds cfg (tsAfter cfg pid hist) chunks
+      = ((tsFeed cfg (tsAfter cfg pid hist) chunks.flatten).st, (tsFeed cfg (tsAfter cfg pid hist) chunks.flatten).frames) := by
+  induction chunks generalizing hist with
+  | nil => simp [tsFeeds, tsFeed]
+  | cons c cs ih =>
+    have hstep : tsAfter cfg pid (hist ++ [c]) = (tsFeed cfg (tsAfter cfg pid hist) c).st := by
+      simp [tsAfter, List.foldl_append]
+    have h := ih (hist ++ [c])
+    rw [hstep] at h
+    obtain ⟨h1, h2⟩ := ts_feed_split_invariant cfg pid hist c cs.flatten
+    simp only [tsFeeds, List.flatten_cons, h]
+    rw [h1, h2]
+
+example : tsFeeds cfg (TsSt.init 256) [[0x47, 1], [], [2]]
+    = ((tsFeed cfg (TsSt.init 256) [0x47, 1, 2]).st, (tsFeed cfg (TsSt.init 256) [0x47, 1, 2]).frames) :=
+  ts_split_invariant cfg 256 [] [[0x47, 1], [], [2]]
+
+/-- **F30: the first frame of a TS stream was never delivered when its PES packet is one TS packet long**
+(source without fix dvb-demux-ts-first-packet, whatever the other three flags): the sync search leaves
+the whole first TS packet in `ts_buffer`, the header evaluation copies its 184 payload bytes, the PES
+packet is complete - and only the copy loop had the "PES packet complete" step.  Of the frames 3, 4, 5
+of `tsThree`, 3 and 4 are to be delivered (5 stays open); only 4 is. -/
+theorem ts_first_frame_lost_counterexample :
+    ((tsFeed { SrcCfg.repaired with tsCompletesInHeader := false } (TsSt.init 256) tsThree).frames.map
+      fun f => (f.pts, f.lines.map (·.line))) = [(4, [7])] := by decide +kernel
+
+/-- with `ts_pes_packet_complete ()` also at the end of the header evaluation the first frame arrives -/
+example : ((tsFeed SrcCfg.repaired (TsSt.init 256) tsThree).frames.map fun f => (f.pts, f.lines.map (·.line)))
+    = [(3, [7]), (4, [7])] ∧ (tsFeed SrcCfg.repaired (TsSt.init 256) tsThree).err = none := by decide +kernel
 
 /-! ## Joint with C06 (multiplexer model `ZvbiModel/Mux`) -/
 
